@@ -429,6 +429,48 @@ def rule_tb2(ctx, prog, rid, fns, control=False):
     return bad if control else n
 
 
+TB3_EXEMPT = {
+    'MountPoint::parse': '/proc/self/mountinfo (cgroup CPU limit detection): not among the inputs of C13',
+    'CGroupSubSys::parse': '/proc/self/cgroup: not among the inputs of C13',
+}
+
+
+def rule_tb3(ctx, prog, rid, fns, control=False):
+    """Unsigned position arithmetic: `x - c` (x unsigned, c a positive constant) used as an argument of
+    a call or as a subscript wraps around to a huge value when x < c; x >= c must be known there
+    (from the guard facts at the site, or on every path to it)."""
+    from bounds import lower_bound_on_all_paths
+    n = bad = 0
+    for f in fns:
+        if f.name in TB3_EXEMPT:
+            continue
+        for e in list(f.events('call')) + list(f.events('idx')):
+            parts = (e.get('args') or []) + ([e.get('recv')] if e.get('recv') is not None else []) + \
+                ([e.get('i')] if e['k'] == 'idx' else [])
+            seen = set()
+            for x in walk(parts):
+                if not (x.get('k') == 'bin' and x['op'] == '-' and (const_value(x['r']) or 0) > 0):
+                    continue
+                l = strip(x['l'])
+                if not (isinstance(l, dict) and l.get('k') == 'var' and
+                        (l.get('tk') == 'uint' or (l.get('ty') or '').startswith(('size_t', 'unsigned', 'std::size_t', 'uint')))):
+                    continue
+                key = (dstr(x), e.get('line'))
+                if key in seen:
+                    continue
+                seen.add(key)
+                c = const_value(x['r'])
+                lo, hi = bounds(f, e, x['l'])
+                ok = lo >= c or lower_bound_on_all_paths(f, e, x['l'], c)
+                n += 1
+                if control:
+                    bad += 0 if ok else 1
+                    continue
+                ctx.check(rid, ok, f.name, 'unsigned-underflow:%s' % dstr(x), f.where(e),
+                          '`%s` in %s: %s >= %d is known (lower bound %s)' % (dstr(x), (e.get('src') or e.get('name') or '')[:50], dstr(l), c, lo))
+    return bad if control else n
+
+
 # ------------------------------------------------------------------------------------------------
 
 def run(ctx):
@@ -528,6 +570,12 @@ def run(ctx):
         raise AnalysisBroken('TB2 control failed')
     ctx.inst('C13.TB1', 'fixtures/controls.cc', 'controls: nvctl::UnboundedFormattedLength fires, nvctl::BoundedReadLength is silent')
     ctx.check('C13.TB1', nb >= 30, 'buffer+length', 'buffer-length:sites', 'src', '%d (local array, length) call sites examined' % nb)
+    n3 = rule_tb3(ctx, prog, 'C13.TB1', [f for f in prog.functions.values() if not f.file.startswith('third_party')])
+    if rule_tb3(ctx, fx, 'C13.TB1', [fx.fn('nvctl::UnderflowingPosition')], control=True) < 1 or \
+            rule_tb3(ctx, fx, 'C13.TB1', [fx.fn('nvctl::GuardedPosition')], control=True) != 0:
+        raise AnalysisBroken('TB3 control failed')
+    ctx.inst('C13.TB1', 'fixtures/controls.cc', 'controls: nvctl::UnderflowingPosition fires, nvctl::GuardedPosition is silent')
+    ctx.check('C13.TB1', n3 >= 5, 'unsigned positions', 'unsigned-underflow:sites', 'src', '%d `unsigned - constant` position sites examined' % n3)
     # the build log loader has no file-derived subscripts at all
     bl = prog.fn('BuildLog::Load')
     subs = [e for e in bl.events('idx')] + [e for e in bl.events('call') if e.get('op') == '[]']
